@@ -4,6 +4,7 @@ import (
 	"context"
 	"encoding/json"
 	"fmt"
+	autoscalingv2 "k8s.io/api/autoscaling/v2"
 	"strconv"
 	"strings"
 
@@ -46,6 +47,7 @@ type Scenario struct {
 	DisableCanarySvc bool       `json:"disable_canary_service,omitempty"`
 	FailureThreshold string     `json:"failure_threshold,omitempty"`
 	GraceSeconds     int        `json:"grace_seconds,omitempty"`
+	WithHPA          bool       `json:"with_hpa,omitempty"` // a HorizontalPodAutoscaler targets the workload (blue-green disables / restores it)
 	Namespace        string     `json:"namespace"`
 	Name             string     `json:"name"`
 }
@@ -230,6 +232,17 @@ func (w *World) Build(s Scenario) error {
 			}}},
 		}
 		if err := h.Create(ctx, route); err != nil {
+			return err
+		}
+	}
+	if s.WithHPA && s.Workload == "deployment" {
+		hpa := &autoscalingv2.HorizontalPodAutoscaler{
+			TypeMeta:   metav1.TypeMeta{APIVersion: "autoscaling/v2", Kind: "HorizontalPodAutoscaler"},
+			ObjectMeta: metav1.ObjectMeta{Namespace: s.Namespace, Name: s.Name + "-hpa"},
+			Spec: autoscalingv2.HorizontalPodAutoscalerSpec{ScaleTargetRef: autoscalingv2.CrossVersionObjectReference{APIVersion: "apps/v1", Kind: "Deployment", Name: s.Name},
+				MinReplicas: pointer.Int32(1), MaxReplicas: 20},
+		}
+		if err := h.Create(ctx, hpa); err != nil {
 			return err
 		}
 	}
